@@ -5,7 +5,8 @@
    (any length: SwitchTo, UpdateClientConnState with a switch config, reports, NewSubConn,
    sub-channel states, RemoveSubConn, ResolverError, ExitIdle, ResolveNow, UpdateAddresses,
    Close, and NewSubConn with a report of another/the same policy arriving - and the swap
-   it causes completing - while the call is inside the channel) from the initial state, with stub behaviours cfg. *)
+   it causes completing - while the call is inside the channel; two reports racing on gsb.mu
+   are the two reports in lock order, see expand) from the initial state, with stub behaviours cfg. *)
 From Coq Require Import List ZArith Bool Arith.
 From VLib Require Import Codec.
 From VModel Require Import GSwitch.
